@@ -155,6 +155,8 @@ struct World {
     matched_version: Arc<std::sync::atomic::AtomicU64>,
     /// 0 = first execution of the case, 1 = retry after a timeout
     attempt: u32,
+    /// a receiver that should read does not: reported once, later waits of this case are skipped
+    settle_broken: bool,
 }
 
 fn cells_of(vals: &[SqliteValue]) -> Vec<String> {
@@ -349,6 +351,7 @@ async fn start_world(dir: &std::path::Path, rows: u64, bcap: u64, attempt: u32) 
         tags: vec![],
         matched_version,
         attempt,
+        settle_broken: false,
     })
 }
 
@@ -569,13 +572,13 @@ impl World {
 
     /// every receiver that reads has read everything published so far
     async fn settle(&mut self) -> Result<(), String> {
-        if self.idle_receivers() {
+        if self.idle_receivers() || self.settle_broken {
             return Ok(());
         }
         static SLOW: std::sync::atomic::AtomicU32 = std::sync::atomic::AtomicU32::new(0);
         let btx = self.btx.clone();
         // once this has timed out twice in this process the wait is shortened (every such case would time out)
-        let deadline = if SLOW.load(std::sync::atomic::Ordering::SeqCst) >= 2 { Duration::from_secs(5) } else { LONG };
+        let deadline = if SLOW.load(std::sync::atomic::Ordering::SeqCst) >= 2 { Duration::from_secs(1) } else { LONG };
         let t0 = Instant::now();
         while btx.len() != 0 {
             if t0.elapsed() > deadline {
@@ -586,6 +589,7 @@ impl World {
                 // second attempt: this is an observation about the code, not about the machine
                 let held: Vec<String> = self.subs.iter().filter(|s| s.state == SubState::Held).map(|s| s.sid.clone()).collect();
                 let n = btx.len();
+                self.settle_broken = true;
                 self.fails.push(format!(
                     "buffering: {} published event(s) were not taken from the broadcast channel within {:?} although every receiver should be reading (held readers: {}): a subscriber is not buffering live events during its catch-up read",
                     n, deadline, held.join(",")
@@ -777,7 +781,9 @@ impl World {
             if t0.elapsed() > LONG {
                 return Err(format!("timeout waiting for the hand-over of {}", self.subs[idx].sid));
             }
-            if self.btx.len() == 0 && self.last_sentinel.elapsed() > Duration::from_millis(4) {
+            // normally only into an empty channel (a probe must not push a lagging receiver further behind); if
+            // somebody never empties it the probe is sent anyway after a while
+            if (self.btx.len() == 0 || self.settle_broken || t0.elapsed() > Duration::from_secs(3)) && self.last_sentinel.elapsed() > Duration::from_millis(4) {
                 self.send_sentinel();
             }
             tokio::time::sleep(Duration::from_millis(1)).await;
@@ -817,7 +823,7 @@ impl World {
                     if t0.elapsed() > LONG {
                         return Err(format!("timeout waiting for the probe on {sid}"));
                     }
-                    if (idle || self.btx.len() == 0) && self.last_sentinel.elapsed() > Duration::from_millis(4) {
+                    if (idle || self.btx.len() == 0 || self.settle_broken || t0.elapsed() > Duration::from_secs(3)) && self.last_sentinel.elapsed() > Duration::from_millis(4) {
                         let n = self.send_sentinel();
                         if probe.is_none() {
                             probe = Some(n);
